@@ -6,7 +6,7 @@ from hypothesis import strategies as st
 from .. import models as M
 from .. import projspace as PS
 from .. import rulespace as RS
-from ..drive import Project, build_rule, eval_rule, outcome, scan_outcome
+from ..drive import Project, build_rule, eval_layer_rule, eval_rule, outcome, scan_outcome
 
 ID = "C09"
 MOD = __name__
@@ -18,7 +18,7 @@ RULE_TEXT = (
     "scan(level_limit=k) must equal the quotient of scan(level_limit=None) under truncation of every module name to k "
     "levels below module_path (modules = truncated names, a->b iff some pre-image import and a != b); then rules drawn "
     "from C01's space over names at/above level k ('sub modules of' parents strictly above) are evaluated on both "
-    "architectures and must give the same verdict, also when one rule object is applied to the full and then to the flattened architecture. Non-trivial: truncation merges >= 2 modules and >= 1 import has an "
+    "architectures and must give the same verdict (likewise a layer rule over two name-defined layers and a diagram rule over 2-3 components at or above the limit), also when one rule object is applied to the full and then to the flattened architecture. Non-trivial: truncation merges >= 2 modules and >= 1 import has an "
     "endpoint that is truncated."
 )
 ASSUMPTIONS = [
@@ -75,6 +75,20 @@ def check_case(spec: dict) -> dict:
                 if (c[0], c[1] if c[0] == "fail" else None) != (b[0], b[1] if b[0] == "fail" else None):
                     v(f"reused-rule-object-differs/{RS.shape_name(rule)}", f"k={k} rule={rule}: a rule object applied to the full architecture "
                       f"first gives {c} on the flattened one, a fresh object gives {b}")
+        if not viols:
+            # layer rules and diagram rules over names at or above the limit are lowered to such module rules: same verdict
+            for lr in spec.get("layer_rules", []):
+                n_rules += 1
+                a = eval_layer_rule(lr["layers"], lr["rule"], full[2])
+                b = eval_layer_rule(lr["layers"], lr["rule"], lim[2])
+                if a[0] != b[0]:
+                    v("layer-rule-verdict-not-preserved", f"k={k} module_path={sub} layers={lr['layers']} rule={lr['rule']}: full -> {a}, flattened -> {b}")
+            for dg in spec.get("diagrams", []):
+                from .c13 import eval_diagram
+                n_rules += 1
+                a, b = eval_diagram(dg, full[2]), eval_diagram(dg, lim[2])
+                if a[0] != b[0]:
+                    v("diagram-rule-verdict-not-preserved", f"k={k} module_path={sub} diagram={dg}: full -> {a}, flattened -> {b}")
     labels = [f"k={k}"] + (["relative-imports"] if spec.get("relative") else []) + ["sub-path" if sub_rel else "root-path", "externals" if ext else "internal-only",
               "merging" if merged else "no-merge", f"rules={n_rules}"]
     return {"violations": viols, "nontrivial": merged and crossing, "labels": labels}
@@ -111,6 +125,24 @@ def cases(draw):
                     r[side] = dict(r[side], kind="named")
             rules.append(r)
     tree["rules"] = rules
+    # pairwise unrelated modules of the flattened architecture, as layer members and diagram components
+    units = []
+    for n in draw(st.permutations(flat)):
+        if n != flat[0] and all(not M.related(n, u) for u in units) and all(p.isidentifier() for p in n.split(".")):
+            units.append(n)
+    if len(units) >= 2 and draw(st.booleans()):
+        cut = draw(st.integers(1, len(units) - 1))
+        layers = [{"name": "L1", "kind": "names", "modules": units[:cut][:3], "as_str": False},
+                  {"name": "L2", "kind": "names", "modules": units[cut:][:3], "as_str": False}]
+        v_, d_, e_ = draw(st.sampled_from(RS.SHAPES))
+        subj = draw(st.sampled_from(["L1", "L2"]))
+        tree["layer_rules"] = [{"layers": layers, "rule": {"verb": v_, "dir": "access" if d_ == "import" else "accessed", "exc": e_, "anything": False,
+                                                           "subj": subj, "obj": ["L2" if subj == "L1" else "L1"]}}]
+    if len(units) >= 2 and draw(st.booleans()):
+        comps = units[: draw(st.integers(2, min(3, len(units))))]
+        pairs = [(a, b) for a in comps for b in comps if a != b]
+        tree["diagrams"] = [{"components": comps, "arrows": [list(x) for x in draw(st.lists(st.sampled_from(pairs), max_size=3, unique=True))],
+                             "should_only": draw(st.booleans())}]
     return tree
 
 
@@ -156,4 +188,4 @@ def exh_shard(arg, stt, deadline) -> None:
 def run(ctx) -> None:
     ctx.exhaustive("fixed-project-all-limits", MOD, "exh_shard", [(k,) for k in (0, 1, 2, 3, 4, 5)],
                    "fixed 3-level project x k in 0..5 x module_path in {root, a, a/x, b} x (externals in/excluded, relative from-imports) x up to 400 single-subject/object rules each")
-    ctx.random("random-trees", MOD, "strategy", "check_case", 4000 if ctx.tier == "quick" else 40000)
+    ctx.random("random-trees", MOD, "strategy", "check_case", 4000 if ctx.tier == "quick" else 120000)
